@@ -295,7 +295,6 @@ def spell(rng, key, variant):
 
 def render(rng, rname, k):
     """(left, right) around the value for key spelling k."""
-    c = rng.random
     if rname == 'eq_bare':
         return k + '=', ''
     if rname == 'eq_sp':
@@ -482,7 +481,8 @@ def multi_case(rng, mask):
                 p['after'] = fit_after(cls, post)
             parts.append(p)
         if quote_free:
-            # order the parts so that dict-style secrets come last-but-quote-free where possible
+            # keep the text after the last secret free of quotes, so that a dict-style secret placed last
+            # (or followed by bare/XML renderings only) stays outside the K12 zone
             last = parts[-1]
             if sur not in QUOTE_FREE_AFTER:
                 last['after'] = fit_after(RENDERINGS[last['rendering']][0], rng.choice(['', '}', ' .', ' ok']))
